@@ -76,7 +76,7 @@ def _post(lines, verdicts):
         problems.append(("diff", "census: macro attributes",
                          f"diff census scylla-macros attributes {attrs} flavors {flavors} differ from the pinned {PINNED_ATTRS} {PINNED_FLAVORS}"))
     kinds, per_struct, rts, accepted, xd = {}, {}, 0, 0, 0
-    xd_ids, pt_accepted = [], 0
+    xd_ids, pt_accepted, ascii_accepted = [], 0, 0
     for ln in lines:
         f = ln.split("|")
         head = f[0].split()
@@ -90,6 +90,8 @@ def _post(lines, verdicts):
             continue
         if head[0] == "PT" and out[:1] == ["ok"]:
             pt_accepted += 1
+        if out[:1] == ["ok"] and len(head) > 3 and re.search(r":a(,|$)", head[3]):
+            ascii_accepted += 1
         per_struct[head[1]] = per_struct.get(head[1], 0) + 1
         if out[:1] == ["ok"]:
             accepted += 1
@@ -103,6 +105,8 @@ def _post(lines, verdicts):
         problems.append(("diff", "coverage: XD", f"diff coverage-floor descriptor self-check ran for {sorted(set(xd_ids) ^ set(STRUCT_IDS))} differently from the pinned struct list"))
     if sorted(per_struct) != sorted(STRUCT_IDS + NESTED_IDS):
         problems.append(("diff", "coverage: structs", f"diff coverage-floor struct ids differ from the pinned list: {sorted(set(per_struct) ^ set(STRUCT_IDS + NESTED_IDS))}"))
+    if ascii_accepted < 5000:
+        problems.append(("diff", "coverage: ascii", f"diff coverage-floor only {ascii_accepted} accepted cases with an ascii column"))
     if pt_accepted < 200:
         problems.append(("diff", "coverage: PT", f"diff coverage-floor only {pt_accepted} accepted PT cases (per-column table specs)"))
     for k, floor in (("PR", 1500), ("PT", 600), ("NV", 4000)):
@@ -126,8 +130,8 @@ SPEC = {
     "rule": ("fixed family of 71 registered derived structs (36 UDT-value structs, 18 row structs with "
              "SerializeRow(+DeserializeRow), 17 SerializeRow structs with #[scylla(flatten)]; among them structs with lifetime / type parameters and #[scylla(crate = ..)]), each registered with its descriptor text (re-derived from the attribute text of the runner's own source as a self-check, kind XD); "
              "per struct: every permutation of its <= 6 bound fields, every subset of fields missing in 4 orders, one extra field at "
-             "every position (quick: only for <= 1 missing field), two extras at every pair of positions, every field duplicated at every position, every field with "
-             "every other DB type (int, text, ascii, bigint; a String field is bound to an ascii column in 1 of 4 valid random lists), Rust identifiers of renamed fields as DB names, a non-UDT type; per DB list one serialize case "
+             "every position (quick: only for <= 1 missing field), two extras at every pair of positions (declared and reversed order), every field duplicated at every position (3 orders), every field with "
+             "every other DB type (int, text, ascii, bigint; a String field is bound to an ascii column in 1 of 4 random lists unless retyped; floor: >= 5000 accepted cases with an ascii column), Rust identifiers of renamed fields as DB names, a non-UDT type; per DB list one serialize case "
              "(with round trip through the derived deserializer on the implementation's own bytes) and deserialize cases with "
              "random cells / every null pattern (all orders for <= 3 fields, declared and reversed order up to 4 fields quick / 6 thorough) / truncated value lists; then --n seeded random cases (extra names randomised: random identifiers, case variants of the struct's names, Rust identifiers of renamed / skipped fields). Kind PR / PT: row cases re-run on ColumnSpecs decoded by the driver itself from a PREPARED response encoded by mocknode (PT: last column in a second table, per-column table specs). Kind NV: 8 structs whose field types are derived structs (UDT in UDT, Option<Struct>, Vec<Struct> as list and as set, BTreeMap<i32, Struct>, (i32, Struct) tuple, UDT as a row column, ordered parent): every outer x inner field order x extras / absent allow_missing, judged by the round-trip law only (no model). "
              "non-trivial = DB list non-empty and a UDT / column list; distinct = distinct case lines"),
@@ -145,7 +149,7 @@ SPEC = {
         "descriptors satisfy the macros' own compile-time validate (no duplicate field names among non-skipped fields)",
         "serialized values handed to the deserializers are well-framed ([bytes] cells); malformed framing is C08's subject",
         "text payloads are ASCII or contain byte 0xff (neither ASCII nor valid UTF-8: the model's validity test is exact only on those, for text and for ascii columns alike)",
-        "open finding F24 (class ordered-allow-missing-present-but-dropped): enforce_order + allow_missing accepts a UDT listing the field at another place and drops its value; such inputs are judged by the documented (strict) table and reported as KNOWN-FINDING",
+        "open finding F24 (class ordered-allow-missing-present-but-dropped): enforce_order + allow_missing accepts a UDT listing the field at another place and drops its value; on such inputs the class tag (KNOWN-FINDING) is given only when bytes and round-trip outcome equal the model of that behaviour, a rejection is ok (documented), any other accepted output is an untagged viol",
         "census: the attribute names / flavors of scylla-macros (read from the tree under test) equal the pinned list",
     ],
 }
